@@ -358,4 +358,206 @@ theorem atof64_Q (L : Literal) (rest : List Nat) (hwf : L.WF) (hst : Stops L res
       refine ⟨by rw [q_one_mul]; simp, ?_⟩
       simp [Literal.signText, List.length_append]; omega
 
+/-! ### igris_atof32 on a literal -/
+
+theorem atou10_spec (M : Nat) (ds r : List Nat) (hd : AllDigits ds) (hr : NonDigitHead r) (acc k : Nat)
+    (hlt : acc * 10 ^ ds.length + valL ds < M) :
+    atou10 M (ds ++ r) acc k = some (acc * 10 ^ ds.length + valL ds, k + ds.length, r) := by
+  induction ds generalizing acc k with
+  | nil =>
+    obtain ⟨c, tl, rfl, hc⟩ := hr
+    have : isDigit c = false := (isDigit_false_iff c).mpr hc
+    simp [atou10, this, valL]
+  | cons d ds ih =>
+    have hd' := allDigits_cons.mp hd
+    have hdig : isDigit d = true := (isDigit_iff d).mpr hd'.1
+    rw [valL_cons] at hlt
+    simp only [List.length_cons, Nat.pow_succ] at hlt
+    have hpos : 0 < 10 ^ ds.length := Nat.pow_pos (by decide)
+    have e : (acc * 10 + (d - 48)) * 10 ^ ds.length + valL ds
+        = acc * (10 ^ ds.length * 10) + ((d - 48) * 10 ^ ds.length + valL ds) := by
+      rw [Nat.add_mul]; simp [Nat.mul_assoc, Nat.mul_comm, Nat.add_assoc]
+    have hstep : acc * 10 + (d - 48) < M := by
+      have : acc * 10 + (d - 48) ≤ (acc * 10 + (d - 48)) * 10 ^ ds.length := Nat.le_mul_of_pos_right _ hpos
+      omega
+    simp only [List.cons_append, atou10, hdig, if_true, Nat.mod_eq_of_lt hstep]
+    rw [ih hd'.2 _ _ (by omega), valL_cons]
+    simp only [List.length_cons, Nat.pow_succ, Option.some.injEq, Prod.mk.injEq]
+    refine ⟨by omega, by omega, trivial⟩
+
+/-- the stages of `atof32Body`, for any arithmetic -/
+theorem atof32Body_stages {F D : Type} [FloatLike F] [FloatLike D] (cvt : D → F)
+    (p p1 p2 p3 : List Nat) (u n0 ev : Nat) (ret : F) (eneg : Bool)
+    (h1 : atou10 (2 ^ 32) p 0 0 = some (u, n0, p1))
+    (h2 : atof32Frac (D := D) cvt u p1 = some (ret, p2))
+    (h3 : parseExp p2 = some (eneg, ev, p3)) :
+    atof32Body (D := D) cvt p = some (scale32 ret eneg ev, p3) := by
+  simp only [atof32Body, h1, h2, h3]
+
+theorem atof32Frac_nodot {F D : Type} [FloatLike F] [FloatLike D] (cvt : D → F) (u c : Nat) (q : List Nat)
+    (hc : c ≠ 46) : atof32Frac (D := D) cvt u (c :: q) = some ((ofInt u : F), c :: q) := by
+  simp [atof32Frac, hc]
+
+theorem atof32Frac_dot {F D : Type} [FloatLike F] [FloatLike D] (cvt : D → F) (u d n : Nat) (q p' : List Nat)
+    (h1 : atou10 (2 ^ 64) q 0 0 = some (d, n, p')) (h2 : n ≤ 18) :
+    atof32Frac (D := D) cvt u (46 :: q)
+      = some (add (ofInt u) (cvt (div (ofInt (toInt64 d) : D) (ofInt ((10 ^ n : Nat) : Int)))), p') := by
+  have : 10 ^ n ≤ 10 ^ 18 := Nat.pow_le_pow_right (by decide) h2
+  have : 10 ^ n < 2 ^ 63 := by omega
+  simp [atof32Frac, h1, localPow10, this]
+
+theorem scale32_eq (X : Rat) (eneg : Bool) (ev : Nat) :
+    (if eneg then X / (10 : Rat) ^ ev else X * (10 : Rat) ^ ev)
+      = Literal.scale10 X (if eneg then -(ev : Int) else ev) := by
+  unfold Literal.scale10
+  cases eneg with
+  | false => simp
+  | true =>
+    by_cases h : ev = 0
+    · subst h; simp; grind
+    · have : ¬ (0 ≤ -(ev : Int)) := by omega
+      simp [this, h]
+
+theorem atof32Body_Q (L : Literal) (rest : List Nat) (hwf : L.WF) (hst : Stops L rest)
+    (hip32 : valL L.ip < 2 ^ 32) (hfp18 : L.fracDigits.length ≤ 18) :
+    atof32Body (F := Rat) (D := Rat) id (L.ip ++ Literal.fracText L.frac ++ Literal.expText L.exp ++ rest)
+      = some (Literal.scale10 (((valL (L.ip ++ L.fracDigits) : Nat) : Rat) / (10 : Rat) ^ L.fracDigits.length)
+          L.expValue, rest) := by
+  obtain ⟨sign, ip, frac, exp⟩ := L
+  obtain ⟨hip, hfp, hexp⟩ := hwf
+  have hndr := stops_nonDigitHead hst
+  obtain ⟨hnul, _, hst3, hst4, _⟩ := hst
+  simp only at hip hfp hexp hst3 hst4 hip32
+  simp only [Literal.fracDigits] at hfp18
+  simp only [Literal.fracDigits, Literal.expValue]
+  have hU : ∀ r, NonDigitHead r → atou10 (2 ^ 32) (ip ++ r) 0 0 = some (valL ip, ip.length, r) := by
+    intro r hr
+    have := atou10_spec (2 ^ 32) ip r hip hr 0 0 (by simpa using hip32)
+    simpa using this
+  cases frac with
+  | none =>
+    cases exp with
+    | none =>
+      obtain ⟨c, tl, rfl, hc⟩ := hndr
+      have hc46 : c ≠ 46 := by
+        have := hst4 rfl rfl; simpa using this
+      have hA := hU (c :: tl) ⟨c, tl, rfl, hc⟩
+      have hP := parseExp_none (c :: tl) hnul (hst3 rfl)
+      have := atof32Body_stages (F := Rat) (D := Rat) id (ip ++ c :: tl) (c :: tl) (c :: tl) (c :: tl) (valL ip) ip.length 0
+        (((valL ip : Nat) : Int) : Rat) false hA (atof32Frac_nodot id _ c tl hc46) hP
+      simp only [Literal.fracText, Literal.expText, List.append_nil]
+      rw [this, scale32_Q, scale32_eq]
+      simp [Rat.intCast_natCast]; grind
+    | some e =>
+      obtain ⟨ch, s, ds⟩ := e
+      obtain ⟨hch, hds, hdne, hdv⟩ := hexp ch s ds rfl
+      have hch46 : ch ≠ 46 := by omega
+      have hnd : NonDigitHead (ch :: (Literal.signText s ++ ds) ++ rest) := ⟨ch, _, rfl, by omega⟩
+      have hA := hU _ hnd
+      have hP := parseExp_some ch s ds rest hch hds hdne hdv hndr
+      have := atof32Body_stages (F := Rat) (D := Rat) id _ _ _ _ (valL ip) ip.length (valL ds)
+        (((valL ip : Nat) : Int) : Rat) (decide (s = some true)) hA (atof32Frac_nodot id _ ch _ hch46) hP
+      simp only [Literal.fracText, Literal.expText, List.append_nil, List.append_assoc] at this ⊢
+      rw [this, scale32_Q, scale32_eq]
+      by_cases hs : s = some true <;> simp [hs, Rat.intCast_natCast] <;> grind
+  | some fp =>
+    have hfpd := hfp fp rfl
+    simp only [Option.getD_some] at hfp18
+    have hfpv : valL fp < 10 ^ 18 := by
+      have h1 := valL_lt fp hfpd
+      have h2 : 10 ^ fp.length ≤ 10 ^ 18 := Nat.pow_le_pow_right (by decide) hfp18
+      omega
+    have hD : ∀ r, NonDigitHead r → atou10 (2 ^ 64) (fp ++ r) 0 0 = some (valL fp, fp.length, r) := by
+      intro r hr
+      have := atou10_spec (2 ^ 64) fp r hfpd hr 0 0 (by simp; omega)
+      simpa using this
+    have h64 : toInt64 (valL fp) = ((valL fp : Nat) : Int) := by
+      unfold toInt64; have : valL fp < 2 ^ 63 := by omega
+      simp [this]
+    have hval : (((valL ip : Nat) : Int) : Rat) + (((valL fp : Nat) : Int) : Rat) / (((10 ^ fp.length : Nat) : Int) : Rat)
+        = ((valL (ip ++ fp) : Nat) : Rat) / (10 : Rat) ^ fp.length := by
+      rw [natCast_val_append]
+      have := pow10_pos fp.length
+      simp only [Rat.intCast_natCast, Rat.natCast_pow]
+      have e10 : ((10 : Nat) : Rat) = 10 := by decide
+      rw [e10]; grind
+    cases exp with
+    | none =>
+      have hA := hU (46 :: fp ++ rest) ⟨46, _, rfl, by omega⟩
+      have hB := hD rest hndr
+      have hP := parseExp_none rest hnul (hst3 rfl)
+      have hF := atof32Frac_dot (F := Rat) (D := Rat) id (valL ip) _ _ _ _ hB hfp18
+      rw [h64] at hF
+      have := atof32Body_stages (F := Rat) (D := Rat) id _ _ _ _ (valL ip) ip.length 0
+        ((((valL ip : Nat) : Int) : Rat) + (((valL fp : Nat) : Int) : Rat) / (((10 ^ fp.length : Nat) : Int) : Rat)) false
+        hA hF hP
+      simp only [Literal.fracText, Literal.expText, List.append_nil, List.append_assoc, List.cons_append] at this ⊢
+      rw [this, scale32_Q, scale32_eq, hval]
+      simp
+    | some e =>
+      obtain ⟨ch, s, ds⟩ := e
+      obtain ⟨hch, hds, hdne, hdv⟩ := hexp ch s ds rfl
+      have hnd : NonDigitHead (ch :: (Literal.signText s ++ ds) ++ rest) := ⟨ch, _, rfl, by omega⟩
+      have hA := hU (46 :: fp ++ (ch :: (Literal.signText s ++ ds) ++ rest)) ⟨46, _, rfl, by omega⟩
+      have hB := hD _ hnd
+      have hP := parseExp_some ch s ds rest hch hds hdne hdv hndr
+      have hF := atof32Frac_dot (F := Rat) (D := Rat) id (valL ip) _ _ _ _ hB hfp18
+      rw [h64] at hF
+      have := atof32Body_stages (F := Rat) (D := Rat) id _ _ _ _ (valL ip) ip.length (valL ds)
+        ((((valL ip : Nat) : Int) : Rat) + (((valL fp : Nat) : Int) : Rat) / (((10 ^ fp.length : Nat) : Int) : Rat))
+        (decide (s = some true))
+        hA hF hP
+      simp only [Literal.fracText, Literal.expText, List.append_nil, List.append_assoc, List.cons_append] at this ⊢
+      rw [this, scale32_Q, scale32_eq, hval]
+      by_cases hs : s = some true <;> simp [hs]
+
+theorem atof32_unsigned {F D : Type} [FloatLike F] [FloatLike D] (cvt : D → F) (c0 : Nat) (s1 : List Nat)
+    (h43 : c0 ≠ 43) (h45 : c0 ≠ 45) :
+    atof32 (D := D) cvt (c0 :: s1) = (atof32Body (D := D) cvt (c0 :: s1)).map fun (ret, rest) =>
+      (ret, (c0 :: s1).length - rest.length) := by
+  simp [atof32, h43, h45]
+
+theorem atof32_minus {F D : Type} [FloatLike F] [FloatLike D] (cvt : D → F) (s1 : List Nat) :
+    atof32 (D := D) cvt (45 :: s1) = (atof32Body (D := D) cvt s1).map fun (ret, rest) =>
+      (FloatLike.neg ret, (45 :: s1).length - rest.length) := by
+  simp [atof32]
+
+theorem atof32_plus {F D : Type} [FloatLike F] [FloatLike D] (cvt : D → F) (s1 : List Nat) :
+    atof32 (D := D) cvt (43 :: s1) = (atof32Body (D := D) cvt s1).map fun (ret, rest) =>
+      (ret, (43 :: s1).length - rest.length) := by
+  simp [atof32]
+
+theorem atof32_Q (L : Literal) (rest : List Nat) (hwf : L.WF) (hst : Stops L rest)
+    (hip32 : valL L.ip < 2 ^ 32) (hfp18 : L.fracDigits.length ≤ 18) :
+    atof32 (F := Rat) (D := Rat) id (L.text ++ rest) = some (L.value, L.text.length) := by
+  have hbody := atof32Body_Q L rest hwf hst hip32 hfp18
+  unfold Literal.text Literal.value Literal.isNeg
+  cases hs : L.sign with
+  | none =>
+    obtain ⟨c0, s1, hcs, h43, h45⟩ := body_head_not_sign L rest hwf hst hs
+    have htxt : Literal.signText none ++ L.ip ++ Literal.fracText L.frac ++ Literal.expText L.exp ++ rest = c0 :: s1 := by
+      simpa [Literal.signText] using hcs
+    rw [htxt, atof32_unsigned id c0 s1 h43 h45, ← hcs, hbody]
+    simp only [Option.map_some, Option.some.injEq, Prod.mk.injEq]
+    refine ⟨by simp, ?_⟩
+    simp [Literal.signText, List.length_append]; omega
+  | some b =>
+    cases b with
+    | true =>
+      have htxt : Literal.signText (some true) ++ L.ip ++ Literal.fracText L.frac ++ Literal.expText L.exp ++ rest
+          = 45 :: (L.ip ++ Literal.fracText L.frac ++ Literal.expText L.exp ++ rest) := by
+        simp [Literal.signText]
+      rw [htxt, atof32_minus, hbody]
+      simp only [Option.map_some, Option.some.injEq, Prod.mk.injEq]
+      refine ⟨by simp, ?_⟩
+      simp [Literal.signText, List.length_append]; omega
+    | false =>
+      have htxt : Literal.signText (some false) ++ L.ip ++ Literal.fracText L.frac ++ Literal.expText L.exp ++ rest
+          = 43 :: (L.ip ++ Literal.fracText L.frac ++ Literal.expText L.exp ++ rest) := by
+        simp [Literal.signText]
+      rw [htxt, atof32_plus, hbody]
+      simp only [Option.map_some, Option.some.injEq, Prod.mk.injEq]
+      refine ⟨by simp, ?_⟩
+      simp [Literal.signText, List.length_append]; omega
+
 end Igris.C12
